@@ -13,10 +13,10 @@ def screen(rnd):
     nplates = rnd.randrange(1, 7); rows = []
     for p in range(nplates):
         for _ in range(rnd.randrange(1, 4)):
-            rows.append(("p%02d" % p, "s%d" % rnd.randrange(2), rnd.choice("abc"), rnd.choice("abc")))
+            rows.append(("p%02d" % p, "s%d" % rnd.randrange(2), rnd.choice(["a", "b", "c", "control"]), rnd.choice(["a", "b", "c", "control"])))
     obs = {("p%02d" % p): rnd.random() < 0.3 for p in range(nplates)}
     return Screen(observations=np.full(len(rows), 0.5), observation_mask=np.array([obs[r[0]] for r in rows]), sample_names=np.array([r[1] for r in rows]),
-                  plate_names=np.array([r[0] for r in rows]), treatment_names=np.array([[r[2], r[3]] for r in rows]), treatment_doses=np.ones((len(rows), 2)))
+                  plate_names=np.array([r[0] for r in rows]), treatment_names=np.array([[r[2], r[3]] for r in rows]), treatment_doses=np.ones((len(rows), 2)), control_treatment_name="control")
 
 
 class Rec(Scorer):
